@@ -66,7 +66,9 @@ Definition elt_empty : elt := mkelt [] 0 0.
 
 Inductive op :=
 | OWrite (bs : list Z)     (* Hwrite                                   *)
-| OSeek (off : Z)          (* Hseek(off, DF_START)                     *)
+| OSeek (origin off : Z)   (* Hseek(off, origin): 0 = DF_START, 1 = DF_CURRENT, 2 = DF_END *)
+| OTell                    (* Htell: the position                       *)
+| OInq                     (* Hinquire: length and position             *)
 | ORead (n : Z)            (* Hread; n = 0 means "to the end"          *)
 | OEnd                     (* Hendaccess                               *)
 | OStartRead               (* Hstartread  on the element               *)
@@ -75,8 +77,16 @@ Inductive op :=
 | OSize                    (* HCPgetdatasize: uncompressed size        *)
 | ORaw.                    (* harness-only: dump the raw compressed element *)
 
+(** where a seek lands: from the start, from the current position, from the end of the (uncompressed) data *)
+Definition seek_target (origin off pos len : Z) : option Z :=
+  if origin =? 0 then Some off
+  else if origin =? 1 then Some (pos + off)
+  else if origin =? 2 then Some (len + off)
+  else None.
+
 Inductive res :=
-| RN (n : Z)               (* a count / SUCCEED                        *)
+| RN (n : Z)               (* a count / SUCCEED / a position           *)
+| RPair (a b : Z)          (* Hinquire: length, position               *)
 | RBytes (bs : list Z)
 | RFail
 | RNoDomain.               (* outside the property's domain: not compared *)
@@ -105,9 +115,15 @@ Definition settled (e : elt) : bool := e_dirty e =? 0.
 Definition s_step (c : coder) (e : elt) (o : op) : elt * res :=
   match o with
   | OWrite bs => if write_in_domain c e bs then (s_write c e bs, RN (zlen bs)) else (e, RNoDomain)
-  | OSeek off =>
-      if negb (settled e) || negb (Z.rem off (coder_unit c) =? 0) then (e, RNoDomain)
-      else if (0 <=? off) && (off <=? zlen (e_data e)) then (mkelt (e_data e) off 0, RN 0) else (e, RNoDomain)
+  | OSeek origin off0 =>
+      match seek_target origin off0 (e_pos e) (zlen (e_data e)) with
+      | None => (e, RNoDomain)
+      | Some off =>
+          if negb (settled e) || negb (Z.rem off (coder_unit c) =? 0) then (e, RNoDomain)
+          else if (0 <=? off) && (off <=? zlen (e_data e)) then (mkelt (e_data e) off 0, RN 0) else (e, RNoDomain)
+      end
+  | OTell => if settled e then (e, RN (e_pos e)) else (e, RNoDomain)
+  | OInq => if settled e then (e, RPair (zlen (e_data e)) (e_pos e)) else (e, RNoDomain)
   | ORead n =>
       if negb (settled e) || negb (Z.rem n (coder_unit c) =? 0) then (e, RNoDomain)
       else
